@@ -80,6 +80,7 @@ def main():
             sampling_time=data.sampling_time.total_seconds(), training_time=data.training_time.total_seconds(),
             likelihood_evaluation_time=data.model.likelihood_evaluation_time.total_seconds())
 
+    last_write_end = [None]
     write_wall = [0.0]   # wall time spent writing checkpoints (and digesting them): nessai stops its sampling clock while a checkpoint is written
 
     def dump(data, filename, module, save_existing=False):
@@ -90,6 +91,7 @@ def main():
             after_write(data, seq)
         finally:
             write_wall[0] += time.monotonic() - t_w
+            last_write_end[0] = time.monotonic()
         return r
 
     # ---- the documented alternative to the resume file: a user checkpoint_callback that stores the pickled sampler itself, handed back through resume_data
@@ -103,6 +105,7 @@ def main():
             _checkpoint_callback(state, pickle)
         finally:
             write_wall[0] += time.monotonic() - t_w
+            last_write_end[0] = time.monotonic()
 
     def _checkpoint_callback(state, pickle):
         seq = before_write(state)
@@ -199,7 +202,10 @@ def main():
             try:
                 return loop(self, *a, **k)
             finally:
-                loop_wall[0] += time.monotonic() - t_loop
+                # nessai adds to its sampling time when a checkpoint is taken (the last one at the end of the run): the reference interval ends with the last
+                # checkpoint write, what follows (final plots, logging) is not sampling time
+                end = last_write_end[0] if last_write_end[0] is not None and last_write_end[0] >= t_loop else None
+                loop_wall[0] += (end - t_loop) if end is not None else float("nan")
 
         cls.nested_sampling_loop = timed_loop
         try:
